@@ -189,7 +189,8 @@ def _db_level(ctx, prog):
     ap = prog.find(name="applay_all", self_adt=FILEDBINNER)
     if len(ap) != 1:
         # renamed: the one FileDbInner method that invokes a callback parameter
-        ap = [f for f in prog.fns.values() if f.impl_self_adt == FILEDBINNER and f.kind == "AssocFn" and any(
+        ap = [f for f in prog.fns.values() if f.crate == "abyssiniandb" and f.kind in ("AssocFn", "Fn") and
+              (f.impl_self_adt == FILEDBINNER or f.module == FILEDBINNER.rsplit("::", 1)[0]) and any(
             (t.get("callee") or "") in ("core::ops::function::Fn::call", "core::ops::function::FnMut::call_mut", "core::ops::function::FnOnce::call_once") for b, t in f.calls())]
     if not ctx.check(len(ap) == 1, "db-sync-registries", "anchor", "FileDbInner::applay_all not found"):
         return
@@ -218,6 +219,11 @@ def _db_level(ctx, prog):
                         flds |= _fields_read(tg[0])
                     elif x.data.get("args"):
                         stack.extend(origins(prog, ap, x.data["args"][0], at=x.block))
+                elif x.kind == "param" and x.proj:
+                    # the registry itself (`self.db_x_map.values()` instead of a key snapshot and the getter)
+                    for p_ in x.proj:
+                        if p_.startswith("f:") and p_.rsplit(".", 1)[0].endswith("FileDbInner"):
+                            flds.add(p_.rsplit(".", 1)[1])
         fate = result_fate(prog, ap, t["dest"]["l"]) if t["dest"]["l"] != 0 else {"returned"}
         for f in flds:
             covered.setdefault(f, []).append((b, fate))
